@@ -50,7 +50,7 @@ def _eval_sig(sig, model):
 
 
 def _worker(args):
-    prop_id, job, seed = args
+    prop_id, job, seed, tier = args
     mod = _load(prop_id)
     h = mod.HARNESSES[job["h"]]
     label = job.get("label") or f"{job['h']}:{json.dumps({k: v for k, v in job.items() if k not in ('h', 'label')}, sort_keys=True, default=str)}"
@@ -60,7 +60,8 @@ def _worker(args):
         with H.patched(**h.get("patch", {})):
             run = h["run"](job)
             res = explore(run, label=label, max_paths=job.get("max_paths", 400_000),
-                          max_seconds=job.get("max_seconds", 3000.0), stop_on_cex=True)
+                          max_seconds=job.get("max_seconds", 3300.0) if tier == "thorough" else min(job.get("max_seconds", 600.0), 600.0),
+                          stop_on_cex=True)
             out["result"] = res.as_dict()
             # translator validation: pinned concrete runs through the shim vs the real code
             if not res.cex and "pinned" in h:
@@ -114,9 +115,10 @@ def run_property(prop_id: str, tier: str, seed: int, procs: int | None = None) -
     pinned_real_checks = []
     per_harness: dict[str, dict] = {}
     slow: list = []
+    early_stop = False
     ctxm = mp.get_context("fork")
     with ctxm.Pool(min(procs, max(1, len(jobs)))) as pool:
-        for out in pool.imap_unordered(_worker, [(prop_id, j, seed) for j in jobs], chunksize=1):
+        for out in pool.imap_unordered(_worker, [(prop_id, j, seed, tier) for j in jobs], chunksize=1):
             hn = out["job"]["h"]
             ph = per_harness.setdefault(hn, dict(jobs=0, paths=0, queries=0, obligations=0, discharged=0, truncated=0, wall_s=0.0))
             ph["jobs"] += 1
@@ -129,6 +131,12 @@ def run_property(prop_id: str, tier: str, seed: int, procs: int | None = None) -
             for k in ("paths", "queries", "obligations", "discharged", "truncated"):
                 ph[k] += getattr(r, k)
             total.merge(r)
+            if r.cex and _confirms(mod, prop_id, r.cex, jobs):
+                # a counterexample that replays on the real code and is not a known finding: no need to
+                # wait for the remaining jobs (they are reported as not explored)
+                early_stop = True
+                pool.terminate()
+                break
             validated += out["validated"]
             if out["validation_error"]:
                 val_errors.append(f"{out['label']}: {out['validation_error']}")
@@ -198,7 +206,7 @@ def run_property(prop_id: str, tier: str, seed: int, procs: int | None = None) -
             functions_encoded=meta.get("functions", []), bounds=meta.get("bounds", {}).get(tier, meta.get("bounds", {})),
             degenerate=meta.get("degenerate", {}), stubs=meta.get("stubs", []),
             outside_claim=meta.get("outside", []), engine=meta.get("engine", "symx path-forking executor over z3 " + z3.get_version_string()),
-            status=status, errors=(errors + val_errors + spurious)[:20],
+            status=status, errors=(errors + val_errors + spurious)[:20], stopped_early_on_violation=early_stop,
             known_findings_hit=sorted(known_hits), exhaustive=False,
         ),
         assumptions=meta.get("assumptions", []),
@@ -226,6 +234,19 @@ def run_property(prop_id: str, tier: str, seed: int, procs: int | None = None) -
         print("INCONCLUSIVE: no path reached an obligation (vacuous)", file=sys.stderr)
         return EXIT_INCONCLUSIVE
     return EXIT_OK
+
+
+def _confirms(mod, prop_id, cexs, jobs) -> bool:
+    known = {(k["property"], k["key"]) for k in load_known().get("known", [])}
+    for cex in cexs:
+        try:
+            job = _job_of(cex, jobs)
+            msg = mod.HARNESSES[job["h"]]["replay"](job, cex["inputs"], cex.get("notes", {}))
+        except Exception:
+            continue
+        if msg is not None and (prop_id, msg.split("|")[0].strip()) not in known:
+            return True
+    return False
 
 
 def _job_of(cex, jobs):
